@@ -117,6 +117,12 @@ func runTransfer(t *testing.T, sc Scenario, sum *summary, tf *vh.TraceFile) {
 		rcfg.Mtu = 0
 		w.Mon.Register(srvAddr, cliAddr, 77, rcfg, 0)
 		cli, cconn := w.Dial(cliAddr, srvAddr, 77, sc.Cfg)
+		if sc.Cfg.D > 0 && sc.Seed%3 != 1 {
+			// the dialled session's FEC encoder starts one or two groups before the wrap value of its sequence ids
+			// (the peer's decoder still starts at 0: ids just below the wrap value are "a little behind" for it)
+			n := uint32(sc.Cfg.D + sc.Cfg.P)
+			cli.VerifSetFECNext(0xffffffff/n*n - n*uint32(1+sc.Seed%2))
+		}
 		w.Ev(map[string]any{"ev": "open", "conn": "cli", "stream": sc.Cfg.Stream})
 		// write admission (C04): the hook fires under the session mutex in the branch of WriteBuffers that queues the data
 		var connName sync.Map // *kcp.UDPSession -> "cli" / "srv"
@@ -281,6 +287,9 @@ func runTransfer(t *testing.T, sc Scenario, sum *summary, tf *vh.TraceFile) {
 				}
 				if rng.Intn(5) == 0 {
 					time.Sleep(time.Duration(rng.Intn(30)) * time.Millisecond)
+				}
+				if sc.Cfg.D > 0 && rng.Intn(10) == 0 {
+					time.Sleep(600 * time.Millisecond) // longer than the FEC encoder's continuity bound: the open group's parity is skipped
 				}
 			}
 		}
